@@ -36,6 +36,7 @@ type Chooser interface {
 
 type zeroChooser struct{}
 
+//go:norace
 func (zeroChooser) Choose(string, int) int { return 0 }
 
 // Task is one schedulable goroutine.
@@ -68,7 +69,7 @@ type PanicInfo struct {
 // Sched is one simulation run's scheduler.
 type Sched struct {
 	mu      sync.Mutex
-	byGoid  map[int64]*Task
+	live    []*Task // tasks bound to a goroutine, scanned linearly by goid
 	parked  []*Task
 	all     []*Task
 	poke    chan struct{}
@@ -103,15 +104,18 @@ type Sched struct {
 var cur atomic.Pointer[Sched]
 
 // Current returns the installed scheduler or nil.
+//
+//go:norace
 func Current() *Sched { return cur.Load() }
 
 // New creates a scheduler. Call Run on the root goroutine of a synctest bubble.
+//
+//go:norace
 func New(ch Chooser, waitIdle func()) *Sched {
 	if ch == nil {
 		ch = zeroChooser{}
 	}
 	return &Sched{
-		byGoid:     map[int64]*Task{},
 		poke:       make(chan struct{}, 1),
 		chooser:    ch,
 		WaitIdle:   waitIdle,
@@ -124,6 +128,7 @@ func New(ch Chooser, waitIdle func()) *Sched {
 	}
 }
 
+//go:norace
 func goid() int64 {
 	var buf [40]byte
 	n := runtime.Stack(buf[:], false)
@@ -139,6 +144,7 @@ func goid() int64 {
 	return id
 }
 
+//go:norace
 func mix(h uint64, s string) uint64 {
 	for i := 0; i < len(s); i++ {
 		h ^= uint64(s[i])
@@ -150,9 +156,13 @@ func mix(h uint64, s string) uint64 {
 }
 
 // NextSeq returns the next global event sequence number.
+//
+//go:norace
 func (s *Sched) NextSeq() uint64 { return s.seq.Add(1) }
 
 // Log folds a harness event into the run hash (and the trace, if enabled).
+//
+//go:norace
 func (s *Sched) Log(kind, detail string) {
 	s.mu.Lock()
 	s.hash = mix(mix(s.hash, kind), detail)
@@ -164,12 +174,18 @@ func (s *Sched) Log(kind, detail string) {
 }
 
 // Hash returns the rolling hash over every decision and logged event.
+//
+//go:norace
 func (s *Sched) Hash() uint64 { s.mu.Lock(); defer s.mu.Unlock(); return s.hash }
 
 // SwitchHash returns the hash of the context-switch sequence.
+//
+//go:norace
 func (s *Sched) SwitchHash() uint64 { s.mu.Lock(); defer s.mu.Unlock(); return s.swHash }
 
 // Pairs returns the set of (from-site -> to-site) preemption pairs seen.
+//
+//go:norace
 func (s *Sched) Pairs() map[string]int {
 	s.mu.Lock()
 	defer s.mu.Unlock()
@@ -181,9 +197,13 @@ func (s *Sched) Pairs() map[string]int {
 }
 
 // AbortReason is "" for a normal end, else steplimit / simtime / panic / <custom>.
+//
+//go:norace
 func (s *Sched) AbortReason() string { s.mu.Lock(); defer s.mu.Unlock(); return s.abort }
 
 // Abort ends the run at the next scheduling point.
+//
+//go:norace
 func (s *Sched) Abort(reason string) {
 	s.mu.Lock()
 	if s.abort == "" {
@@ -194,16 +214,25 @@ func (s *Sched) Abort(reason string) {
 
 // Foreign is the number of goroutines that entered the scheduler without a
 // deterministic identity (started by code the instrumenter did not see).
+//
+//go:norace
 func (s *Sched) Foreign() int { s.mu.Lock(); defer s.mu.Unlock(); return s.foreign }
 
+//go:norace
 func (s *Sched) self() *Task {
 	g := goid()
 	s.mu.Lock()
-	t := s.byGoid[g]
+	var t *Task
+	for _, x := range s.live {
+		if x.goid == g {
+			t = x
+			break
+		}
+	}
 	if t == nil {
 		s.foreign++
 		t = &Task{ID: "x." + strconv.Itoa(s.foreign), Name: "foreign", goid: g, wake: make(chan struct{}), sched: s}
-		s.byGoid[g] = t
+		s.live = append(s.live, t)
 		s.all = append(s.all, t)
 	}
 	s.mu.Unlock()
@@ -211,6 +240,8 @@ func (s *Sched) self() *Task {
 }
 
 // Self returns the calling goroutine's task (nil if no scheduler).
+//
+//go:norace
 func Self() *Task {
 	s := Current()
 	if s == nil {
@@ -219,6 +250,7 @@ func Self() *Task {
 	return s.self()
 }
 
+//go:norace
 func (s *Sched) newTask(parent *Task, name string) *Task {
 	var id string
 	if parent == nil {
@@ -237,23 +269,34 @@ func (s *Sched) newTask(parent *Task, name string) *Task {
 }
 
 // enter binds the calling goroutine to t and parks it until first scheduled.
+//
+//go:norace
 func (s *Sched) enter(t *Task) {
 	raceDisable()
 	g := goid()
 	s.mu.Lock()
 	t.goid = g
 	t.gone = false
-	s.byGoid[g] = t
+	s.live = append(s.live, t)
 	s.all = append(s.all, t)
 	s.mu.Unlock()
 	raceEnable()
 	s.park(t, "start:"+t.Name)
 }
 
+//go:norace
 func (s *Sched) leave(t *Task) {
 	raceDisable()
 	s.mu.Lock()
-	delete(s.byGoid, t.goid)
+	for i, x := range s.live {
+		if x == t {
+			last := len(s.live) - 1
+			s.live[i] = s.live[last]
+			s.live[last] = nil
+			s.live = s.live[:last]
+			break
+		}
+	}
 	t.gone = true
 	if s.current == t {
 		s.current = nil
@@ -262,6 +305,7 @@ func (s *Sched) leave(t *Task) {
 	raceEnable()
 }
 
+//go:norace
 func (s *Sched) runTask(t *Task, fn func()) {
 	s.enter(t)
 	defer func() {
@@ -280,6 +324,8 @@ func (s *Sched) runTask(t *Task, fn func()) {
 }
 
 // Go starts fn as a new task (instrumented replacement of the go statement).
+//
+//go:norace
 func Go(site string, fn func()) {
 	s := Current()
 	if s == nil {
@@ -291,6 +337,8 @@ func Go(site string, fn func()) {
 }
 
 // GoHarness starts a harness-owned task.
+//
+//go:norace
 func GoHarness(name string, fn func()) *Task {
 	s := Current()
 	if s == nil {
@@ -305,6 +353,8 @@ func GoHarness(name string, fn func()) *Task {
 
 // Wrap gives a function that some un-instrumented code will run on a goroutine
 // of its own (time.AfterFunc) a deterministic task identity allocated now.
+//
+//go:norace
 func Wrap(site string, fn func()) func() {
 	s := Current()
 	if s == nil {
@@ -328,6 +378,8 @@ func Wrap(site string, fn func()) func() {
 }
 
 // WrapE is Wrap for func() error (errgroup.Group.Go).
+//
+//go:norace
 func WrapE(site string, fn func() error) func() error {
 	s := Current()
 	if s == nil {
@@ -344,6 +396,7 @@ func WrapE(site string, fn func() error) func() error {
 	}
 }
 
+//go:norace
 func (s *Sched) park(t *Task, site string) {
 	raceDisable()
 	s.mu.Lock()
@@ -359,6 +412,8 @@ func (s *Sched) park(t *Task, site string) {
 }
 
 // Yield is a scheduling point.
+//
+//go:norace
 func Yield(site string) {
 	s := Current()
 	if s == nil {
@@ -368,6 +423,8 @@ func Yield(site string) {
 }
 
 // Settle parks the caller until no other task is runnable at the current instant.
+//
+//go:norace
 func Settle() {
 	s := Current()
 	if s == nil {
@@ -381,6 +438,8 @@ func Settle() {
 
 // WaitFor parks the caller until cond() is true. cond is evaluated by the
 // scheduler while every task is parked, so it may read harness state freely.
+//
+//go:norace
 func WaitFor(site string, cond func() bool) {
 	s := Current()
 	if s == nil {
@@ -396,6 +455,8 @@ func WaitFor(site string, cond func() bool) {
 }
 
 // Sleep sleeps on the bubble's fake clock and parks after waking.
+//
+//go:norace
 func Sleep(d time.Duration) {
 	s := Current()
 	if s == nil {
@@ -409,6 +470,8 @@ func Sleep(d time.Duration) {
 }
 
 // Perm returns the index of the select case to poll first.
+//
+//go:norace
 func Perm(site string, n int) int {
 	s := Current()
 	if s == nil || n <= 1 {
@@ -425,8 +488,11 @@ func Perm(site string, n int) int {
 }
 
 // Zero returns the zero value of a channel's element type (typed select temporaries).
+//
+//go:norace
 func Zero[T any](c <-chan T) (v T, ok bool) { return }
 
+//go:norace
 func (s *Sched) runnable(t *Task) bool {
 	switch {
 	case t.waitM != nil:
@@ -443,6 +509,7 @@ func (s *Sched) runnable(t *Task) bool {
 	return true
 }
 
+//go:norace
 func (s *Sched) pick() *Task {
 	s.mu.Lock()
 	defer s.mu.Unlock()
@@ -494,7 +561,11 @@ func (s *Sched) pick() *Task {
 	t := cands[idx]
 	for i, p := range s.parked {
 		if p == t {
-			s.parked = append(s.parked[:i], s.parked[i+1:]...)
+			for j := i; j+1 < len(s.parked); j++ {
+				s.parked[j] = s.parked[j+1]
+			}
+			s.parked[len(s.parked)-1] = nil
+			s.parked = s.parked[:len(s.parked)-1]
 			break
 		}
 	}
@@ -534,9 +605,9 @@ func (s *Sched) pick() *Task {
 
 // Run runs driver as the first task and schedules until it returns or the run is
 // aborted. Must be called on the root goroutine of a synctest bubble.
+//
+//go:norace
 func (s *Sched) Run(name string, driver func()) {
-	raceDisable()
-	defer raceEnable()
 	if !cur.CompareAndSwap(nil, s) {
 		panic("simrt: a scheduler is already installed")
 	}
@@ -546,6 +617,8 @@ func (s *Sched) Run(name string, driver func()) {
 	defer horizon.Stop()
 	t := s.newTask(nil, name)
 	t.Harness = true
+	// started before the scheduler hides its synchronisation from the race detector:
+	// goroutine creation must keep its happens-before edge (package initialisation etc.)
 	go s.runTask(t, func() {
 		defer func() {
 			s.mu.Lock()
@@ -554,6 +627,8 @@ func (s *Sched) Run(name string, driver func()) {
 		}()
 		driver()
 	})
+	raceDisable()
+	defer raceEnable()
 	for {
 		select {
 		case <-s.poke:
@@ -589,10 +664,13 @@ func (s *Sched) Run(name string, driver func()) {
 }
 
 // Elapsed is the simulated time since Run started.
+//
+//go:norace
 func (s *Sched) Elapsed() time.Duration { return time.Since(s.start) }
 
 // TaskState describes a task that still exists (for leak / deadlock reports).
 type TaskState struct {
+	Goid           int64
 	ID, Name, Site string
 	Parked         bool
 	Harness        bool
@@ -600,6 +678,8 @@ type TaskState struct {
 }
 
 // Alive lists tasks that have not exited, sorted by id.
+//
+//go:norace
 func (s *Sched) Alive() []TaskState {
 	s.mu.Lock()
 	defer s.mu.Unlock()
@@ -618,12 +698,13 @@ func (s *Sched) Alive() []TaskState {
 		} else if t.waitR != nil {
 			w = "rwmutex"
 		}
-		out = append(out, TaskState{ID: t.ID, Name: t.Name, Site: t.site, Parked: parked[t], Harness: t.Harness, Waiting: w})
+		out = append(out, TaskState{Goid: t.goid, ID: t.ID, Name: t.Name, Site: t.site, Parked: parked[t], Harness: t.Harness, Waiting: w})
 	}
 	sort.Slice(out, func(i, j int) bool { return out[i].ID < out[j].ID })
 	return out
 }
 
+//go:norace
 func (t TaskState) String() string {
 	st := "blocked-after"
 	if t.Parked {
@@ -636,12 +717,17 @@ func (t TaskState) String() string {
 }
 
 // SiteBase strips the trailing prime from a site label.
+//
+//go:norace
 func SiteBase(site string) string { return strings.TrimRight(site, "'") }
 
+//go:norace
 func fnv64(s string) uint64 { h := fnv.New64a(); h.Write([]byte(s)); return h.Sum64() }
 
 var _ = fnv64
 
 // Elem types a select send value by the channel's element type (so untyped
 // constants and nil keep their meaning when hoisted into a temporary).
+//
+//go:norace
 func Elem[T any](c chan<- T, v T) T { return v }
